@@ -112,6 +112,7 @@ pub fn test_case_mode(case: &DocCase, ctx: &mut CaseCtx, strict: bool) -> Result
 pub fn run(run: &mut Run) {
     run.rule = "same document sweep as C01 (G-FRONTEND x G-TEXT/G-MARKUP/G-PROGRAM/fixtures x typing-state truncation) plus the prefix closure of harvested sentences; oracle = validity predicate over Parser::parse output and Document::get_tokens (bounds, order/disjointness, zero-width kinds, plain-English tiling, lexical shape of Word/Space/Number/Punctuation, quote twins). Non-trivial = >=3 tokens and (multi-byte char, or a condensing pass merged tokens, or a markup/comment front-end); distinct by (front-end, text).".into();
     run.guard = true;
+    run.max_shrink_iters = 400;
     // witness of the open finding
     if !run.strict && run.known.get(KF_ET_AL).is_some() {
         let c = DocCase {
